@@ -18,7 +18,15 @@ CLAIMS = {
    note="bounded (bounds in the evidence); one known finding (switches with only one-way links keep flooding on them).",
    ref="0.3 / 7/C19"),
  "C06": dict(
-   text="Tasks are generators, which the evaluator does not run; the scheduler's plain functions are proved as single steps with "
+   text="(1) Task PROGRAMS (since the evaluator runs generators, 2026-09-25): two or three real generator tasks with scripted "
+        "steps (yield 0, Sleep, park, sub-task call returning / raising / nested with the exception handled by the direct caller, "
+        "raise) on a real Scheduler whose cycle() is called a fixed number of times - per task, as a function of its own script "
+        "only: its steps run in order, once each, a sub-task's value or exception reaches exactly its caller's yield, a raising or "
+        "parked task runs no further step and the others finish (Scheduler.cycle, fast_schedule, BaseTask.execute, Again.execute, "
+        "AgainTask.run_again, task_function, Sleep are the repository's code end to end).  (2) Timer.run resumed up to four times "
+        "with cancel() during any sleep: fires once per expiry until cancelled or self-stopped, never after a cancel made while it "
+        "was pending, sleeps to absolute deadlines one interval after it fired (one-shot and recurring; times, interval and callback "
+        "result symbolic).  (3) The scheduler's plain functions as single steps with "
         "a task's generator as an opaque callee (any yield value, StopIteration, any exception): Scheduler.cycle over a ready "
         "queue of 2..3 tasks - exactly the head task is stepped (once more only after a blocking operation that answers True), "
         "a yielded 0 re-queues it last, a number sleeps it on the timer hub, False parks it, a blocking operation runs exactly once "
@@ -28,9 +36,9 @@ CLAIMS = {
         "parks, re-queues at once for 0 / past times, registers a future absolute time; SelectHub._select over 1..3 timer "
         "waiters resumes exactly the waiters whose time has passed plus - on an idle OS select, whose timeout is proved to be "
         "the earliest pending wake time minus now - the earliest one, each once, and forgets exactly those.",
-   note="all units bounded (reported so). NOT decided: anything that needs a generator or thread to run - Timer (one-shot / "
-        "recurring / cancel), task_function sub-task call / return, Scheduler.run and the hub threads, low-priority rotation, "
-        "I/O readiness in _select, 'every runnable task is eventually run'.",
+   note="all units bounded (reported so): concrete small programs, up to four timer resumptions, 2..3 ready tasks. NOT decided: "
+        "Scheduler.run and the hub threads, low-priority rotation, I/O readiness in _select, 'every runnable task is eventually "
+        "run' for arbitrary programs (shown for the programs of the units: nothing is left runnable).",
    ref="0.3 / 7/C06"),
  "C07": dict(
    text="Only the cooperative-lock clause of C07 is within reach of a per-call contract and is what this check decides: "
@@ -124,7 +132,7 @@ CLAIMS = {
         "swallows every handler exception except ReventError (known finding); a weak subscription is dropped, and never "
         "invoked again, once the collector's callback runs.",
    note="list length <= 3 (reported as bounded symbolic units); weakref/GC semantics assumed (the callback is invoked "
-        "explicitly); autoBindEvents name wiring and re-entrant raise from inside a handler not decided.",
+        "explicitly); name-based wiring (autoBindEvents) bounded to one sink class; re-entrant raise from inside a handler not decided.",
    ref="7/C05"),
  "C12": dict(
    text="Every header-rewrite action (set dl src/dst, VLAN vid/pcp incl. tag push, strip VLAN, nw src/dst/tos, tp src/dst) is "
